@@ -7,6 +7,8 @@ META = {
  'assumptions': [],
 }
 PRIV = ['-Dprivate=public', '-Dprotected=public']
+if os.environ.get('C04_FIXDIR'):     # validation aid: force-include a patched copy of the headers (proposed fixes), never used by ./check runs
+    PRIV = PRIV + ['-include', os.path.join(os.environ['C04_FIXDIR'], 'Template.hpp')]
 KN = {1: 'real', 2: 'nat', 3: 'int'}
 OPN = {1: 'or', 2: 'and', 3: 'eq', 4: 'ne', 5: 'ge', 6: 'le', 7: 'gt', 8: 'lt', 9: 'bor', 10: 'band', 11: 'add', 12: 'sub', 13: 'mul', 14: 'div', 15: 'rem', 16: 'pow'}
 MANUAL_KF = os.environ.get('C04_KF_MANUAL')     # testing aid while the ids are not yet in known_findings.json
@@ -19,7 +21,8 @@ def kq(name, entry, defs, kf_excl=(), kf_only=None, **kw):
         return Query(name, 'C04_kernels.cpp', entry, defs, cflags=PRIV, mem_gb=8, **kw)
     return Query(name, 'C04_kernels.cpp', entry, defs, cflags=PRIV, mem_gb=8, kf_excl=kf_excl, kf_only=kf_only, **kw)
 INTS = 28            # kind set {Natural, Integer}
-KF_NAT = 'C04-natural-as-signed'
+KF_NAT = 'C04-natural-cmp'
+KF_NATR = 'C04-natural-rem'
 def kernel_queries(tier):
     qs = []
     # + - * : integer kinds together (SAT), every pair with a real separately (cvc5 floating-point theory)
@@ -33,13 +36,14 @@ def kernel_queries(tier):
         for rk in (1, 2, 3):
             qs.append(kq('kernel/div/%s-%s' % (KN[lk], KN[rk]), 'h_div', {'LK': lk, 'RK': rk}, backend='cvc5', timeout=300))
     # % : the three genuine findings apart, then the rest
-    EX = ['C04-rem-zero', 'C04-rem-overflow', KF_NAT]
+    EX = ['C04-rem-zero', 'C04-rem-overflow', KF_NATR]
+    SOV = ['--signed-overflow-check']        # 'result of signed mod is not representable': INT64_MIN % -1 traps on x86-64
     for lk in (1, 2, 3):
         for rk in (1, 2, 3):
-            qs.append(kq('kernel/rem/%s-%s' % (KN[lk], KN[rk]), 'h_rem', {'LK': lk, 'RK': rk}, kf_excl=EX, backend='cvc5', timeout=300))
-    qs.append(kq('kernel/rem/kf-zero', 'h_rem', {'LK': 0, 'RK': 0}, kf_only='C04-rem-zero', timeout=300))
-    qs.append(kq('kernel/rem/kf-overflow', 'h_rem', {'LK': 0, 'RK': 0}, kf_only='C04-rem-overflow', timeout=300))
-    qs.append(kq('kernel/rem/kf-natural', 'h_rem', {'LK': 0, 'RK': 0, 'REM_WIDE': 1}, kf_only=KF_NAT, timeout=300))
+            qs.append(kq('kernel/rem/%s-%s' % (KN[lk], KN[rk]), 'h_rem', {'LK': lk, 'RK': rk}, kf_excl=EX, backend='cvc5', extra_cbmc=SOV, timeout=300))
+    qs.append(kq('kernel/rem/kf-zero', 'h_rem', {'LK': 0, 'RK': 0}, kf_only='C04-rem-zero', extra_cbmc=SOV, timeout=300))
+    qs.append(kq('kernel/rem/kf-overflow', 'h_rem', {'LK': 0, 'RK': 0}, kf_only='C04-rem-overflow', extra_cbmc=SOV, timeout=300))
+    qs.append(kq('kernel/rem/kf-natural', 'h_rem', {'LK': 0, 'RK': 0, 'REM_WIDE': 1}, kf_only=KF_NATR, timeout=300))
     for op in (9, 10):
         qs.append(kq('kernel/%s/int' % OPN[op], 'h_bit', {'OPER': op, 'LK': INTS, 'RK': INTS}, timeout=300))
         for lk in (1, 2, 3):
